@@ -75,7 +75,10 @@ CONFUSERS = ["Capture(AnyFrom('(', '[')) + OneOrMore(AnyDigit()) + Capture(AnyFr
              "Exactly('a', 2) + 'b' + Exactly('c', 2)", "AnyFrom('\\n', '(') + Capture('a')",
              "Group('a', is_case_insensitive=True) + Group('b', is_case_insensitive=True)",
              "FollowedBy('a', 'b') + FollowedBy('c', 'd')", "MatchAtStart('a') + MatchAtEnd('b')",
-             "Either('a', Capture('b')) + Either(Capture('c'), 'd')", "Capture(AnyFrom('|', '(')) + Capture(AnyFrom('|', ')'))"]
+             "Either('a', Capture('b')) + Either(Capture('c'), 'd')", "Capture(AnyFrom('|', '(')) + Capture(AnyFrom('|', ')'))",
+             # explicit groups whose content contains further (automatic or explicit, flagged or named) groups
+             "Group(Either('a', 'b') + 'c')", "Group(Group('a') + Optional(Group('b')))", "Group('a' + Group(Either('b', 'c'), True))",
+             "Group(Optional('ab') + Capture('c', 'n'))", "Capture(Group(Either('a', 'b')) + Group('c', True), 'n')", "Group(Either('a', 'b') + 'c', True)"]
 
 
 def confuser_atoms():
